@@ -448,6 +448,8 @@ class C18(core.Check):
         "scipy.spatial.ConvexHull is an oracle: the model receives the simplices the implementation obtained; a Lean "
         "validator checks on every case that they form a closed convex triangulation of the eight points (relative 1e-9)",
         "observer different from the block centre and ceiling off the observer axis (the code computes with nan otherwise)",
+        "finder histories (moves, backport, delete/clear/assemble) are sent to the model as one session (request c18.session); "
+        "what a re-assembly puts into mesh.vertices is an argument of the session, not modelled here",
         "python list / set / sorted semantics of the finders and of ViewpointReorienter are modelled by hand and validated "
         "by correspondence",
     ]
@@ -807,22 +809,36 @@ class C18(core.Check):
     def requests(self, case: dict, impl: Any) -> List[str]:
         reqs: List[str] = []
         if case["kind"] == "find":
-            for ph in impl["phases"]:
-                vs = _pts(ph["verts"])
+            # the whole history of the one finder object goes to the model's session in ONE request
+            ops: List[str] = []
+            nq = 0
+            for k, ph in enumerate(impl["phases"]):
+                if k == 1 and len(ph["verts"]) == len(impl["phases"][0]["verts"]):
+                    for i, (a, b) in enumerate(zip(impl["phases"][0]["verts"], ph["verts"])):
+                        if a != b:
+                            ops.append(f"m:{i}:{_pt(b)}")  # moved in place
+                elif k >= 1:
+                    ops.append("r:" + _pts(ph["verts"]))  # a new assembly
                 for q in ph["queries"]:
                     if q["boundary"]:
                         continue
+                    nq += 1
                     if q["type"] == "sphere":
                         r = "tol" if q["radius"] is None else _fr(q["radius"])
-                        reqs.append(f"c18.sphere {_pt(q['centre'])} {r} {vs}")
+                        ops.append(f"s:{_pt(q['centre'])}:{r}")
                     else:
-                        reqs.append(f"c18.plane {_pt(q['centre'])} {_pt(q['normal'])} {vs}")
+                        ops.append(f"p:{_pt(q['centre'])}:{_pt(q['normal'])}")
+            if nq:
+                reqs.append("c18.session " + _pts(impl["phases"][0]["verts"]) + " " + " ".join(ops))
         elif case["kind"] == "shape":
-            for ph in impl["phases"]:
-                vs = _pts(ph["verts"])
+            ops = []
+            for k, ph in enumerate(impl["phases"]):
+                if k:
+                    ops.append("r:" + _pts(ph["verts"]))
                 for e in ph["ends"]:
-                    for part in ("core", "shell"):
-                        reqs.append(f"c18.shape {e['sketch']} {part} {_pts(e['points'])} {vs}")
+                    ops.append(f"c:{e['sketch']}:{_pts(e['points'])}")
+                    ops.append(f"h:{e['sketch']}:{_pts(e['points'])}")
+            reqs.append("c18.session " + _pts(impl["phases"][0]["verts"]) + " " + " ".join(ops))
         elif case["kind"] == "reorient-seq":
             import numpy as np
 
@@ -853,12 +869,18 @@ class C18(core.Check):
 
     def compare(self, case: dict, impl: Any, model: List[str]) -> Optional[str]:
         pos = 0
+        if case["kind"] in ("find", "shape"):
+            if not model:
+                return None
+            model = model[0].split("|")  # the answers of the session, one per query
         if case["kind"] == "find":
             for k, ph in enumerate(impl["phases"]):
                 for q in ph["queries"]:
                     if q["boundary"]:
                         continue
                     want = "[" + ",".join(map(str, q["found"])) + "]"
+                    if pos >= len(model):
+                        return f"the model's session gives {len(model)} answers, fewer than the queries asked"
                     if model[pos] != want:
                         when = ["", " (after vertices were moved)", " (after backport)", " (after delete/clear/assemble)"][k]
                         return f"{q['type']} query{when} {q}: implementation finds {want}, model {model[pos]}"
@@ -869,6 +891,8 @@ class C18(core.Check):
                 for e in ph["ends"]:
                     for part in ("core", "shell"):
                         want = "[" + ",".join(map(str, e[part])) + "]"
+                        if pos >= len(model):
+                            return f"the model's session gives {len(model)} answers, fewer than the queries asked"
                         if model[pos] != want:
                             when = " (after backport)" if k else ""
                             return f"find_{part} on {e['sketch']}{when}: implementation {want}, model {model[pos]}"
